@@ -59,6 +59,10 @@ pub enum Mode {
     Pct { prio: Vec<u8>, changes: Vec<u8> },
     /// exact replay of an executed schedule (thread id per step)
     Exact,
+    /// priority schedule with preemptions only at *interesting* yield points: the running thread
+    /// keeps running (highest priority first) unless its k-th arrival at an interesting point is
+    /// listed in `preempt`, in which case it drops to the lowest priority
+    Points { prio: Vec<u8>, preempt: Vec<u16>, all_points: bool },
 }
 
 #[derive(Clone, Debug, Serialize, Deserialize)]
@@ -238,7 +242,33 @@ fn exec_op(cas: &Cas<String>, stats: &Option<Arc<OrphanStats<String>>>, qdir: &s
     }
 }
 
+pub fn interesting(name: &str) -> bool {
+    matches!(
+        name,
+        "op.begin"
+            | "commit.before_register"
+            | "commit.before_rename"
+            | "commit.before_apply"
+            | "apply_put.applied"
+            | "apply_put.delete"
+            | "apply_put.intents_released"
+            | "apply_remove.applied"
+            | "apply_remove.delete"
+            | "apply_remove.intents_released"
+            | "read.before_blob_open"
+            | "remove.after_scan"
+            | "remove_range.after_scan"
+            | "intent_drop.intents"
+            | "delete_orphans.before_unlink"
+            | "delete_orphan.before_unlink"
+            | "quarantine_orphans.before_rename"
+            | "delete_orphans.intents"
+    )
+}
+
 pub struct Executed {
+    /// number of arrivals at interesting points (Points mode)
+    pub arrivals: u16,
     pub order: Vec<u8>,
     pub calls: Vec<CallRec>,
     pub flags: BTreeSet<&'static str>,
@@ -395,9 +425,10 @@ pub fn execute(case: &SchedCase, lenses: SLenses, stall: &mut bool) -> R<Execute
     let mut held: Vec<u8> = vec![0; nt];
     let mut edges: BTreeSet<(u8, u8, &'static str)> = BTreeSet::new();
     let mut prio: Vec<i32> = match &case.mode {
-        Mode::Pct { prio, .. } => (0..nt).map(|i| *prio.get(i).unwrap_or(&0) as i32 + 10).collect(),
+        Mode::Pct { prio, .. } | Mode::Points { prio, .. } => (0..nt).map(|i| *prio.get(i).unwrap_or(&0) as i32 + 10).collect(),
         _ => vec![0; nt],
     };
+    let mut arrivals: u16 = 0;
     let changes: Vec<usize> = match &case.mode {
         Mode::Pct { changes, .. } => changes.iter().map(|c| *c as usize).collect(),
         _ => vec![],
@@ -511,6 +542,19 @@ pub fn execute(case: &SchedCase, lenses: SLenses, stall: &mut bool) -> R<Execute
                     last.filter(|l| enabled.contains(l)).unwrap_or(enabled[0])
                 }
             },
+            Mode::Points { preempt, all_points, .. } => {
+                if let Some(l) = last {
+                    if let WState::At { name, .. } = &workers[l] {
+                        if *all_points || interesting(name) {
+                            if preempt.contains(&arrivals) {
+                                prio[l] = -(step as i32) - 1;
+                            }
+                            arrivals += 1;
+                        }
+                    }
+                }
+                *enabled.iter().max_by_key(|i| (prio[**i], usize::MAX - **i)).unwrap()
+            }
             Mode::Pct { .. } => {
                 if changes.contains(&step) {
                     if let Some(l) = last {
@@ -621,7 +665,7 @@ pub fn execute(case: &SchedCase, lenses: SLenses, stall: &mut bool) -> R<Execute
     }
     drop(stats);
     drop(cas);
-    Ok(Executed { order, calls, flags, final_map, edges })
+    Ok(Executed { arrivals, order, calls, flags, final_map, edges })
 }
 
 fn check_linearizable(init: &BTreeMap<u8, u8>, calls: &[CallRec], cas: &Cas<String>) -> R<()> {
@@ -753,6 +797,7 @@ pub fn meta_from(case: &SchedCase, ex: &Executed) -> CaseMeta {
         Mode::Walk => "mode_walk",
         Mode::Pct { .. } => "mode_pct",
         Mode::Exact => "mode_exact",
+        Mode::Points { .. } => "mode_points",
     });
     m.class(&format!("threads_{}", case.prog.threads.len()));
     m.count("steps", ex.order.len() as u64);
